@@ -16,7 +16,7 @@ PID = 'C09'
 LEVEL = 'exploration'
 RULE = ('Covariance: datasets incl. a singular one (duplicated feature); RCA: chunk layouts {alphabet chunks with -1, every '
         'point chunked, large unbalanced chunks} x n_components in None,1..d; LFDA: layouts {as given, a class smaller than '
-        'k+1 listed first / last, renamed classes} x k in 1..d-1 and None x embedding_type x n_components in None,1..d; '
+        'k+1 listed first / last, renamed classes, a singleton class} x k in 1..d-1 and None x embedding_type x n_components in None,1..d; '
         'signature = (learner, dataset, layout, options); non-trivial = every case (distinct data / options)')
 ASSUMPTIONS = ['References: explicit outer-product covariance and Moore-Penrose conditions; within-chunk covariance from '
                'explicit chunk means; LFDA scatter matrices from the PAIRWISE definition (Sugiyama 2007) with sigma_i = distance '
@@ -35,7 +35,7 @@ def cases(tier, seed):
         out.append(('Covariance/%s' % dsn, ('cov', dsn, seed)))
         for lay in ('alphabet', 'all_chunked', 'big_chunks'):
             out.append(('RCA/%s/%s' % (dsn, lay), ('rca', dsn, lay, seed)))
-        for lay in ('given', 'small_first', 'small_last', 'renamed'):
+        for lay in ('given', 'small_first', 'small_last', 'renamed', 'singleton'):
             out.append(('LFDA/%s/%s' % (dsn, lay), ('lfda', dsn, lay, seed)))
     out.append(('Covariance/singular', ('cov_singular', seed)))
     return out
@@ -62,6 +62,8 @@ def lfda_layout(ds, lay):
         y[idx[3:]] = c_to                      # the small class keeps 3 members
     elif lay == 'renamed':
         y = np.array([9, 2, 5, 7])[y]
+    elif lay == 'singleton':                   # a class with exactly one member (smaller than any k)
+        y[len(y) // 2] = y.max() + 1
     return y
 
 
